@@ -374,7 +374,9 @@ def distribution(recs):
                 len_cap_relation_by_value_nesting_level=dict(sorted(lencap.items())), iterator_shapes=shapes)
 
 # ------------------------------------------------------------------------------------------------
+REPLAYING = [None]      # in replay mode nothing is written: violations point at the replay file that was given
 def write_replay(pid, payload):
+    if REPLAYING[0]: return REPLAYING[0]
     d = os.path.join(ROOT, 'replays'); os.makedirs(d, exist_ok=True)
     blob = json.dumps(payload, indent=1, sort_keys=True)
     path = os.path.join(d, '%s-memsize-%s.json' % (pid, hashlib.sha256(blob.encode()).hexdigest()[:10]))
@@ -384,7 +386,7 @@ def write_replay(pid, payload):
 def plan(tier, seed):
     if tier == 'quick':
         return dict(gens=[('debug', seed, 4), ('release', seed + 1, 3)], big_count=1000000, big_profiles=['debug', 'release'], big_extra=[])
-    return dict(gens=[('debug', seed * 100 + i, 12) for i in range(3)] + [('release', seed * 100 + 10 + i, 16) for i in range(3)],
+    return dict(gens=[('debug', seed * 100 + i, 16) for i in range(8)] + [('release', seed * 100 + 10 + i, 24) for i in range(4)],
                 big_count=1000000, big_profiles=['debug', 'release'],
                 big_extra=[('release', 'vec_empty_string_arrays', 10000000), ('release', 'vec_nested_empty_arrays', 10000000), ('release', 'vec_u64', 10000000),
                            ('debug', 'vec_empty_string_arrays', 10000000), ('release', 'vec_strings', 10000000), ('release', 'bulk_filtered_empty_arrays', 10000000)])
@@ -399,6 +401,7 @@ def main(pid, tier='quick', seed=1, replay=None):
     try:
         # replay: restrict to the recorded input
         rp = None
+        REPLAYING[0] = replay
         if replay:
             rp = json.load(open(replay))
             if rp.get('seed') is not None: seed = rp['seed']
@@ -520,8 +523,9 @@ def main(pid, tier='quick', seed=1, replay=None):
             assumptions=['no Mutex / RwLock is poisoned (DESIGN.md 9.4)', 'iterators handed to the bulk helpers are pure: make_iter() yields the same items each time',
                          'values fit in memory, so no usize sum overflows (C09_upper bounds every heap_size by the bytes really allocated)'],
             wall_s=round(time.time() - t0, 2), violations=len(violations))
-        os.makedirs(os.path.join(ROOT, 'evidence'), exist_ok=True)
-        json.dump(ev, open(os.path.join(ROOT, 'evidence', pid + '.json'), 'w'), indent=1)
+        if not replay:
+            os.makedirs(os.path.join(ROOT, 'evidence'), exist_ok=True)
+            json.dump(ev, open(os.path.join(ROOT, 'evidence', pid + '.json'), 'w'), indent=1)
         for path, what, nofound in violations:
             print('VIOLATION property=%s replay=%s%s' % (pid, path, ' no-failing-input-found' if nofound else ''))
             print('  ' + what)
